@@ -21,11 +21,14 @@ pub fn gen_history(rng: &mut Rng, streams: bool, fragment: bool, budget: usize, 
     let peers = peers_for(n_peers);
     let ids: Vec<String> = peers.iter().map(|p| p.id.clone()).collect();
     let cfg = GenCfg { peers: ids, streams, fragment, budget, failing_services: true };
+    let ids2 = cfg.peers.clone();
+    let use_template = streams && rng.chance(1, 2);
     let mut g = Gen::new(rng, cfg);
     let mut script = g.script();
     // avoid degenerate one-instruction scripts most of the time
     let mut tries = 0;
     while script.size() < 3 && tries < 5 { script = g.script(); tries += 1; }
+    if use_template { script = template(rng, &ids2); }
     let air = script.text();
     let seed = rng.next();
     let mut net = Net::new(&air, &peers, &format!("particle-{seed:x}"));
@@ -99,8 +102,14 @@ pub fn inject_fault(net: &mut Net, rng: &mut Rng) -> Option<String> {
     if net.log.is_empty() { return None; }
     let p = rng.below(net.peers.len());
     let donor = net.log[rng.below(net.log.len())].outcome.data.clone();
-    let kind = rng.below(7);
+    let kind = rng.below(10);
     let mut results = CallResults::new();
+    if kind >= 7 {
+        // structure-aware tampering: trace edited, stores and signatures left consistent
+        let (cur, what) = crate::tamper::tamper_structure(&donor, rng)?;
+        net.run_peer(p, &cur, results, format!("fault:structure({what})"));
+        return Some("structure".into());
+    }
     let cur: Vec<u8> = match kind {
         0 => { let mut d = donor.clone(); if d.is_empty() { return None; } let i = rng.below(d.len()); d[i] ^= 1 << rng.below(8); d }       // bit flip
         1 => { let mut d = donor.clone(); let n = d.len(); d.truncate(n / 2); d }                                                        // truncation
